@@ -30,6 +30,8 @@ def to_actions(script, T):
             out.append((k, secs(a[1], T)))
         elif k == "raw":
             out.append(("raw", secs(a[1], T), a[2] if isinstance(a[2], bytes) else bytes.fromhex(a[2])))
+        elif k == "multi":
+            out.append(("multi", [(secs(d, T), b if isinstance(b, bytes) else bytes.fromhex(b)) for d, b in a[1]]))
         elif k == "exc":
             out.append(("exc", secs(a[1], T), a[2]))
         elif k == "frag":
